@@ -100,6 +100,19 @@ CLAIMED["C05"] = dict(
           "of the grammar, not an enumeration. Group elements inside credentials/proofs are out of scope here (C20)."),
     ref="4 C05")
 
+CLAIMED["C16"] = dict(
+    engine="base",
+    technique="TLA+ specs ContractsCommon (contract-side binary grammar with near misses) and TextForms (grammars and value functions of amounts, names, timestamps, durations, contract addresses; symbolic checked arithmetic) enumerated by TLC; vectors replayed on concordium-contracts-common",
+    text=("ContractsCommon.tla states the contract-side encoding (little-endian integers, u32/u16 length prefixes, one-byte tags, ordered collections) with the inputs that must be rejected "
+          "(undefined tags, duplicates, unordered input for the order-checking readers, invalid UTF-8, invalid names, zero exchange rates, lengths beyond the content); every canonical vector must "
+          "decode to the stated value, consume exactly its bytes and re-encode identically, every prefix must be rejected, bit flips must stay canonical, allocation is bounded. TextForms.tla classifies every "
+          "string over a 5-symbol alphabet up to length 5 by the documented Amount grammar with its value, decides the three name validators around the 100-byte limit, converts calendar dates to milliseconds "
+          "with an independent civil-date algorithm (leap days, year 9999/10000, 2^63, u64::MAX), and gives checked add/sub/duration_since on symbolic u64 values; the harness requires print -> parse to be the "
+          "identity for every value. Found and fixed with this check: Timestamp Display beyond year 9999 and beyond 2^63 ms (T1/T2)."),
+    note=("Account addresses (base58) are opaque; duration strings denoting more than u64::MAX ms are outside the property (O4). The default BTreeSet/BTreeMap readers only reject duplicates (documented), so 'unordered' "
+          "is required to be rejected only by the order-checking readers."),
+    ref="4 C16")
+
 NOT_YET = {
 }
 
